@@ -265,3 +265,35 @@ theorem search_sound (P : Problem) (fuel : Nat) (b : Node) (done : List Node)
   search_sound_gen P fuel (init P) b done (S_init P) h
 
 end AdaptaVerif.Lemmas.AStarSound
+
+namespace AdaptaVerif.Lemmas.AStarSound
+open AdaptaVerif.Model.AStar
+
+/-- `searchSt` (the variant that also returns the final PENDING list and time-stamp counter, used for the
+    correspondence with the optional hook) is the same loop as `search` -/
+theorem searchSt_eq_search (P : Problem) : ∀ (fuel : Nat) (st : St),
+    search P fuel st =
+      match searchSt P fuel st with
+      | some (b, st') => .found b st'.done
+      | none => search P fuel st := by
+  intro fuel
+  induction fuel with
+  | zero => intro st; simp [searchSt]
+  | succ n ih =>
+    intro st
+    unfold searchSt search
+    split
+    · rfl
+    · rename_i b rest hx
+      simp only
+      split
+      · rfl
+      · exact ih _
+
+theorem searchSt_found (P : Problem) (fuel : Nat) (st : St) (b : Node) (st' : St)
+    (h : searchSt P fuel st = some (b, st')) : search P fuel st = .found b st'.done := by
+  have := searchSt_eq_search P fuel st
+  rw [h] at this
+  exact this
+
+end AdaptaVerif.Lemmas.AStarSound
